@@ -797,8 +797,11 @@ pub fn one_main(args: &[String]) -> i32 {
 /// event-log hash, verdict and violations
 pub fn selftest_main(args: &[String]) -> i32 {
     let what = args.first().cloned().unwrap_or_default();
+    if what == "oracles" {
+        return selftest_oracles(args);
+    }
     if what != "determinism" {
-        eprintln!("selftest: only `determinism` is implemented");
+        eprintln!("selftest: `determinism` or `oracles`");
         return 2;
     }
     let runs: u64 = arg_val(args, "--runs").and_then(|s| s.parse().ok()).unwrap_or(100);
@@ -850,6 +853,56 @@ pub fn selftest_main(args: &[String]) -> i32 {
     if d.is_empty() {
         0
     } else {
+        2
+    }
+}
+
+
+/// the oracles are not vacuous: with a substrate contract broken on purpose (the channel stub
+/// drops or reorders messages) the link, result and termination oracles must fire
+fn selftest_oracles(args: &[String]) -> i32 {
+    let runs: u64 = arg_val(args, "--runs").and_then(|s| s.parse().ok()).unwrap_or(300);
+    let seed = env_seed();
+    let mut bad = 0;
+    for (fault, props) in [("net_drop:20", vec!["C02", "C01", "C04"]), ("net_reorder:30", vec!["C02", "C16"])] {
+        std::env::set_var("VERIF_SELFTEST_FAULT", fault);
+        for p in props {
+            let jobs: Vec<Job> = (0..runs)
+                .map(|r| Job {
+                    prop: p.to_string(),
+                    seed,
+                    run: r,
+                    tapes: None,
+                    want_tapes: false,
+                    want_scenario: false,
+                    cpu: None,
+                    oracle: None,
+                    scenario: None,
+                })
+                .collect();
+            let n = Mutex::new((0u64, BTreeSet::new()));
+            run_batch(jobs, |_j, rep| {
+                let mut g = n.lock().unwrap();
+                if !rep.violations.is_empty() {
+                    g.0 += 1;
+                    for v in &rep.violations {
+                        g.1.insert(class_key(&v.class));
+                    }
+                }
+            });
+            let (cnt, classes) = n.into_inner().unwrap();
+            println!("selftest oracles: fault {} property {}: {} of {} runs flagged, classes {:?}", fault, p, cnt, runs, classes);
+            if cnt == 0 {
+                bad += 1;
+            }
+        }
+    }
+    std::env::remove_var("VERIF_SELFTEST_FAULT");
+    if bad == 0 {
+        println!("selftest oracles: every oracle fired under its substrate fault");
+        0
+    } else {
+        println!("selftest oracles: {} oracle(s) stayed silent", bad);
         2
     }
 }
